@@ -577,10 +577,13 @@ def bias_block(cv, bad=None):
 
 def rejected_config(r, name, atom):
     """a configuration that the module refuses, at a random stage/depth; uses the given names only"""
-    kind = r.choice(["global", "colvar", "component", "group", "bias", "top", "brace", "value"])
+    kind = r.choice(["global", "global-set-then-error", "colvar", "component", "group", "bias", "top", "brace", "value"])
     pad = r.randint(0, 8)
     if kind == "global":
         return kind, "colvarsTrajFrequency abc\n" + cv_block(name, atom, pad) + bias_block(name)
+    if kind == "global-set-then-error":
+        # module-level settings are made, THEN the configuration is refused
+        return kind, "colvarsTrajFrequency 9\ncolvarsRestartFrequency 11\n" + cv_block(name, atom, pad) + bias_block(name, "  forceKonstant 1.0")
     if kind == "colvar":
         return kind, cv_block(name, atom, pad, "  wdth 0.5") + bias_block(name)
     if kind == "component":
@@ -1414,6 +1417,11 @@ def check(run):
         rc1_, o1_, _ = run_scn(unit, d, "cfs", scenario(natoms, pos, conf.encode()))
         rc2_, o2_, _ = run_scn(unit, d, "cff", scenario(natoms, pos, conf.encode()).replace("confighex %s" % G.hx(conf.encode()), "configfile c09_conf.in"))
         run.count("configfile:" + name, True)
+        rc3_, o3_, _ = run_scn(unit, d, "cfc", scenario(natoms, pos, conf.encode()).replace("confighex %s" % G.hx(conf.encode()), "script cv configfile c09_conf.in"))
+        steps = lambda o: [l for l in o.split("\n") if l.split()[:1] and l.split()[0] in ("STEP", "ENERGY", "CV", "BIAS", "ATOMF")]
+        if rc3_ != 0 or steps(o3_) != steps(o1_):
+            run.violation("layout:module:script-configfile-differs", "the configuration %s read through the script command `cv configfile` gives another result than the same text as a string" % name,
+                          {"kind": "module", "natoms": natoms, "positions": pos, "config": conf})
         if observables(o1_) != observables(o2_) or rc2_ != 0:
             run.violation("layout:module:configfile-differs", "the configuration %s read from a file (configfile) gives another result than the same text as a string" % name,
                           {"kind": "module", "natoms": natoms, "positions": pos, "config": conf})
